@@ -72,14 +72,14 @@ fn get_enum_dependencies(
             shared,
         } => {
             if seen.insert(shared.id.original.to_string()) {
-                res.push(shared.id.original.to_string());
                 for variant in &shared.variants {
                     match variant {
                         RustEnumVariant::Unit(_) => {}
-                        RustEnumVariant::AnonymousStruct {
-                            fields: _,
-                            shared: _,
-                        } => {}
+                        RustEnumVariant::AnonymousStruct { fields, shared: _ } => {
+                            for field in fields {
+                                get_dependencies_from_type(&field.ty, types, res, seen)
+                            }
+                        }
                         RustEnumVariant::Tuple { ty, shared: _ } => {
                             get_dependencies_from_type(ty, types, res, seen)
                         }
